@@ -63,6 +63,7 @@ class World:
         self.invites = set()   # (lc chan, session id): unused invitations
         self.addr = {}         # session id -> last known remote address
         self.uncertain = set() # channels whose modes/ops may have changed without an announcement
+        self.ended = set()     # sessions for which a DeleteSession entry was applied
 
     def ban_patterns(self, mask):
         """ircserver: regexp.QuoteMeta(mask) with \\* -> .*, matched unanchored; a ban on a session host also
@@ -72,7 +73,9 @@ class World:
         pats = [comp(mask)]
         m = re.search(r"robust/0x([0-9a-f]+)", mask)
         if m:
-            a = self.addr.get(int(m.group(1), 16))
+            sid = int(m.group(1), 16)
+            # only a session that exists when the ban is set is resolved to its address
+            a = self.addr.get(sid) if (sid in self.created and sid not in self.dead and sid not in self.ended) else None
             if a:
                 pats.append(comp(mask.replace(m.group(0), a)))
         return pats
@@ -102,6 +105,8 @@ def monitor(h, g, which):
         text = irc_check.txt(op)
         if ty == "0":
             w.created.add(int(f[2]))
+        if ty == "1":
+            w.ended.add(actor)
         if ty == "2" and len(f) > 8 and f[8] != "-":
             try:
                 w.addr[actor] = bytes.fromhex(f[8]).decode("utf-8", "replace")
